@@ -396,7 +396,7 @@ impl Engine for C16 {
             let mut m = comp.replace_matcher(ScriptedMatcher::new(plan.space_size, plan.window, 0));
             m.set_policies(&job.policies);
             let _ = comp.replace_matcher(m);
-            let script = SourceScript { chunks: job.chunks.clone(), eof_at: None, faults: vec![] };
+            let script = SourceScript { chunks: job.chunks.clone(), eof_at: None, faults: vec![], pauses: vec![] };
             comp.set_source(SimReader::new(input, &script));
             comp.set_drain(SimSink::new(&SinkScript::default()));
             let r = crate::driver::guarded(|| comp.compress());
@@ -407,7 +407,7 @@ impl Engine for C16 {
                 Err(p) => Err(p),
             };
             let panicked = output.is_err();
-            let p = Produced { input: input.clone(), output, short_reads, partial_writes: 0 };
+            let p = Produced { job: i, input: input.clone(), output, short_reads, partial_writes: 0 };
             bytes += input.len() as u64;
             stats.add("fault.source_short_read", short_reads);
             if i > 0 {
